@@ -9,6 +9,7 @@
 -/
 import Avt.Lemmas.C18
 import Avt.Lemmas.C18Frame
+import Avt.Lemmas.C18TabsFrame
 
 namespace Avt
 open Avt.Spec Avt.Spec.C18 Avt.Lemmas.C18
@@ -409,6 +410,55 @@ example : TInv C18_example = true ∧ isTabOp (.cbt 2) = true
     ∧ tabsOK C18_example.tabs C18_example.cols = true
     ∧ resizeRef C18_example.tabs 20 16 = [3, 8] ∧ resizeRef [8] 16 30 = [8, 16, 24]
     ∧ (tabSpec { C18_example with cursor := { col := 5, row := 1 }, pendingWrap := false } .hts).tabs = [3, 5, 8, 17] := by
+  decide
+
+/-! ### the stop vector is state: only HTS / TBC / CTC, RIS and a resize change it -/
+
+/-- **Function level.**  A function other than HTS, TBC, CTC, RIS and XTWINOPS (`setsTabs`) leaves
+    the stop vector exactly as it was — every terminal state, every geometry, no invariant needed.
+    In particular HT / CHT / CBT themselves, printing, scrolling, save / restore cursor, the soft
+    reset DECSTR, and entering and leaving the alternate screen (DECSET / DECRST 47, 1047, 1049)
+    keep every stop. -/
+theorem C18_tabs_persist {t t' : Terminal} {f : Function} (hf : setsTabs f = false)
+    (h : t.execute f = some t') : t'.tabs = t.tabs :=
+  (Avt.C18T.frame hf h).1
+
+/-- **Call level.**  If none of the functions the parser emits for the input (from the parser state
+    the call starts in) sets the stops, then the fold of `execute` over them, per-character
+    `Vt::feed`, `Vt.feedAll` and `Vt::feed_str` (which ends with `changes()` + `gc()`) all leave the
+    stop vector as it was.  This is the clause `tabs-persist` of the oracle (`Spec.C18.checkStep`). -/
+theorem C18_tabs_persist_feed {v : Vt} {xs : List Nat}
+    (hf : ∀ f ∈ Frame.emitted v.parser xs, setsTabs f = false) :
+    (∀ t', Terminal.foldM' Terminal.execute (Frame.emitted v.parser xs) v.terminal = some t' →
+        t'.tabs = v.terminal.tabs)
+    ∧ (∀ v', v.feedAll xs = some v' → v'.terminal.tabs = v.terminal.tabs)
+    ∧ (∀ v' ch, v.feedStr xs = some (v', ch) → v'.terminal.tabs = v.terminal.tabs)
+    ∧ (∀ c v', xs = [c] → v.feed c = some v' → v'.terminal.tabs = v.terminal.tabs) :=
+  ⟨fun _ h => (Avt.C18T.frame_many hf h).1,
+   fun _ h => (Avt.C18T.feedAll_tabs xs hf h).1,
+   fun _ _ h => (Avt.C18T.feedStr_tabs hf h).1,
+   fun _ _ e h => (Avt.C18T.feed_tabs (by rw [← e]; exact hf) h).1⟩
+
+/-! the hypotheses are satisfiable: a 20x3 terminal gets a custom stop at column 3 (`CSI 4 G`,
+    `ESC H`), then in one call enters the alternate screen (`CSI ?1049h`), is soft-reset (`CSI ! p`),
+    prints, tabs, scrolls (three LF, `CSI S`) and leaves the alternate screen (`CSI ?1049l`): none of
+    the ten emitted functions sets the stops, and the stops are still `[3, 8, 16]` — not the
+    defaults of a 20-column terminal -/
+
+private def exTabsIn : List Nat :=
+  [0x1b, 0x5b, 0x3f, 0x31, 0x30, 0x34, 0x39, 0x68, 0x1b, 0x5b, 0x21, 0x70, 0x61, 0x09, 0x62,
+   0x0a, 0x0a, 0x0a, 0x1b, 0x5b, 0x53, 0x1b, 0x5b, 0x3f, 0x31, 0x30, 0x34, 0x39, 0x6c]
+
+example : (do
+    let v ← Vt.new 20 3 none
+    let (v0, _) ← v.feedStr [0x1b, 0x5b, 0x34, 0x47, 0x1b, 0x48]
+    let (v1, _) ← v0.feedStr exTabsIn
+    pure (v0.terminal.tabs == [3, 8, 16] && v0.terminal.tabs != tabsRef 20
+          && Frame.emitted v0.parser exTabsIn
+               == [.decset [.saveCursorAltScreenBuffer], .decstr, .print 0x61, .ht, .print 0x62,
+                   .lf, .lf, .lf, .su 0, .decrst [.saveCursorAltScreenBuffer]]
+          && (Frame.emitted v0.parser exTabsIn).all (fun f => !setsTabs f)
+          && v1.terminal.tabs == [3, 8, 16] && v1.terminal.activeBufferType == .primary)) = some true := by
   decide
 
 end Avt
